@@ -40,10 +40,10 @@ struct TestReader : public tActisenseReader {
 // ---- reference frame grammar, written from the format description (model independent) ----------
 //   <10><02> escaped(body) <10><03>,  body = type len prio pgn[3] dst [src time[4]] dlen data[dlen] crc
 struct RefMsg { int prio = 0; unsigned long pgn = 0; int dst = 0, src = 0; bool hasTime = false; uint32_t time = 0; int len = 0; Bytes data; };
-enum RefVerdict { RV_OK, RV_NOFRAME, RV_TYPE, RV_LENBYTE, RV_CHECKSUM, RV_DATALEN };
+enum RefVerdict { RV_OK, RV_NOFRAME, RV_TYPE, RV_LENBYTE, RV_CHECKSUM, RV_DATALEN, RV_TOOLONG };
 static const char *rvName(RefVerdict v) {
   switch (v) { case RV_OK: return "ok"; case RV_NOFRAME: return "no-frame"; case RV_TYPE: return "type"; case RV_LENBYTE: return "length-byte-mismatch";
-    case RV_CHECKSUM: return "checksum-mismatch"; default: return "data-length-mismatch"; }
+    case RV_CHECKSUM: return "checksum-mismatch"; case RV_TOOLONG: return "data-length-over-223"; default: return "data-length-mismatch"; }
 }
 // s[p..e) is a candidate frame: s[p]=10 s[p+1]=02 ... s[e-2]=10 s[e-1]=03
 static RefVerdict refParse(const Bytes &s, size_t p, size_t e, RefMsg &m, int defaultSource) {
@@ -60,7 +60,8 @@ static RefVerdict refParse(const Bytes &s, size_t p, size_t e, RefMsg &m, int de
   size_t hdr = body[0] == 0x93 ? 13 : 8;
   if (body.size() < hdr + 1) return RV_DATALEN;
   size_t dl = body[hdr - 1];
-  if (dl > 223 || hdr + dl + 1 != body.size()) return RV_DATALEN;
+  if (hdr + dl + 1 != body.size()) return RV_DATALEN;
+  if (dl > 223) return RV_TOOLONG;   // self-consistent, but more payload than a tN2kMsg can hold
   m.prio = body[2]; m.pgn = body[3] | (body[4] << 8) | ((unsigned long)body[5] << 16); m.dst = body[6];
   if (body[0] == 0x93) { m.src = body[7]; m.hasTime = true; m.time = body[8] | (body[9] << 8) | (body[10] << 16) | ((uint32_t)body[11] << 24); }
   else { m.src = defaultSource; m.hasTime = false; }
@@ -69,7 +70,7 @@ static RefVerdict refParse(const Bytes &s, size_t p, size_t e, RefMsg &m, int de
 }
 static bool sameMsg(const RefMsg &r, const tN2kMsg &m) {
   return r.prio == m.Priority && r.pgn == m.PGN && r.dst == m.Destination && r.src == m.Source && r.len == m.DataLen &&
-         (r.len == 0 || memcmp(r.data.data(), m.Data, r.len) == 0) && (!r.hasTime || r.time == (uint32_t)m.MsgTime);
+         (r.len == 0 || memcmp(r.data.data(), m.Data, r.len) == 0) && (r.hasTime ? (unsigned long)r.time == m.MsgTime : m.MsgTime == (unsigned long)g_now);
 }
 // reference encoder (generator only)
 static void escPush(Bytes &o, unsigned char b) { o.push_back(b); if (b == 0x10) o.push_back(b); }
@@ -88,6 +89,8 @@ static Bytes refBody(int type, int prio, unsigned long pgn, int dst, int src, ui
 
 // ---- state of the reader case --------------------------------------------------------------------
 static TestReader *rd = nullptr; static MemStream *rs = nullptr;
+// idlePoints: positions of the consumed stream at which Handling() was observed false with no byte peeked-but-unread
+static std::vector<size_t> idlePoints;
 static Bytes seen; static size_t checkedTo = 0; static int defSrc = 65; static bool oracleOn = true;
 struct Report { size_t pos; tN2kMsg m; };
 static std::vector<Report> reports; static size_t reportsChecked = 0;
@@ -112,6 +115,7 @@ static void readerOracle() {
   // (1) every reported message is a frame of the consumed stream with consistent length, checksum and data length
   for (; reportsChecked < reports.size(); reportsChecked++) {
     const Report &r = reports[reportsChecked]; size_t e = r.pos; bool explained = false; RefVerdict best = RV_NOFRAME;
+    if (r.m.DataLen < 0 || r.m.DataLen > tN2kMsg::MaxDataLen) { C.fail("C17:reader-reported:DataLen-out-of-range", "at byte %zu reported DataLen %d", e, r.m.DataLen); continue; }
     for (size_t back = 4; back <= e && back <= 700 && !explained; back++) {
       size_t p = e - back; if (seen[p] != 0x10 || seen[p + 1] != 0x02) continue;
       RefMsg m; RefVerdict v = refParse(seen, p, e, m, defSrc);
@@ -129,7 +133,16 @@ static void readerOracle() {
   for (size_t e = (checkedTo < 4 ? 4 : checkedTo + 1); e <= seen.size(); e++) {
     if (seen[e - 1] != 0x03 || seen[e - 2] != 0x10) continue;
     for (size_t back = 4; back <= e && back <= 700; back++) {
-      size_t p = e - back; if (seen[p] != 0x10 || seen[p + 1] != 0x02 || (p > 0 && seen[p - 1] == 0x10)) continue;
+      size_t p = e - back; if (seen[p] != 0x10 || seen[p + 1] != 0x02) continue;
+      if (p > 0 && seen[p - 1] == 0x10) {
+        // a start sequence behind a 0x10 must still be honoured when the reader was idle (nothing pending) at some point
+        // q <= p and no start sequence occurred in between: outside a message the next start sequence starts one
+        bool ok = false; size_t q = 0; bool have = false;
+        for (size_t k = idlePoints.size(); k-- > 0;) if (idlePoints[k] <= p) { q = idlePoints[k]; have = true; break; }
+        if (have) { ok = true; for (size_t i = q; i < p; i++) if (seen[i] == 0x10 && seen[i + 1] == 0x02) ok = false; }
+        if (!ok) continue;
+        C.count("frames_behind_stray_escape_required");
+      }
       RefMsg m; if (refParse(seen, p, e, m, defSrc) != RV_OK) continue;
       bool found = false; for (auto &r : reports) if (r.pos == e && sameMsg(m, r.m)) found = true;
       if (!found) C.fail(p == 0 || back == e ? "C17:resync:frame-at-stream-start-missed" : "C17:resync:frame-missed", "frame at bytes %zu..%zu not reported", p, e);
@@ -198,7 +211,7 @@ static void exec(const std::string &line) {
     delete rd; delete rs; rd = new TestReader(); rs = new MemStream();
     defSrc = atoi(w[1].c_str()); rd->fill((unsigned char)atoi(w[2].c_str())); rd->SetDefaultSource((unsigned char)defSrc);
     seen.clear(); rs->seen = &seen; rd->SetReadStream(rs); rd->SetMsgHandler(onMsg);
-    reports.clear(); reportsChecked = 0; checkedTo = 0; oracleOn = true;
+    reports.clear(); reportsChecked = 0; checkedTo = 0; oracleOn = true; idlePoints.clear(); idlePoints.push_back(0);
     C.out("ok"); return;
   }
   if (w[0] == "now" && w.size() == 2) { g_now = (uint32_t)strtoul(w[1].c_str(), 0, 10); C.out("ok"); return; }
@@ -217,11 +230,21 @@ static void exec(const std::string &line) {
   if (w[0] == "get" && w.size() == 2) {
     bool ro = w[1] != "0"; tN2kMsg m; m.Clear();
     size_t before = rs->in.size();
+    // canaries inside the message object: the padding between Data[] and MsgTime and everything behind MsgTime
+    // (an overflow of Data[] inside the object is invisible to ASan)
+    unsigned char *g1 = m.Data + tN2kMsg::MaxDataLen, *g1e = (unsigned char *)&m.MsgTime;
+    unsigned char *g2 = (unsigned char *)(&m.MsgTime + 1), *g2e = (unsigned char *)&m + sizeof(m);
+    Bytes save1(g1, g1e), save2(g2, g2e); memset(g1, 0xC5, g1e - g1); memset(g2, 0xC5, g2e - g2);
     bool r = rd->GetMessageFromStream(m, ro);
+    { bool hit = false; for (unsigned char *q = g1; q < g1e; q++) hit |= *q != 0xC5; for (unsigned char *q = g2; q < g2e; q++) hit |= *q != 0xC5;
+      if (hit) C.fail("C17:reader-wrote-behind-Data", "bytes of the message object behind Data[%d] changed (DataLen %d)", tN2kMsg::MaxDataLen, m.DataLen);
+      else C.count("canary_checks_ok");
+      if (!save1.empty()) memcpy(g1, save1.data(), save1.size()); if (!save2.empty()) memcpy(g2, save2.data(), save2.size()); }
     lastGetResult = r; lastGetStuck = !r && before == rs->in.size() && before > 0;
     if (r) { Report rp; rp.pos = seen.size(); rp.m = m; reports.push_back(rp); caseReported = true; C.count("messages_reported");
       C.out("1 %zu %d %s", rs->in.size(), (int)rd->Handling(), msgStr(m).c_str()); }
     else C.out("0 %zu %d", rs->in.size(), (int)rd->Handling());
+    if (!rd->Handling() && (ro || rs->in.empty())) idlePoints.push_back(seen.size());
     readerOracle(); return;
   }
   if (w[0] == "parse") {
@@ -229,6 +252,7 @@ static void exec(const std::string &line) {
     lastGetResult = 0; lastGetStuck = false;
     std::string o = std::to_string(reports.size() - n0) + " " + std::to_string(rs->in.size()) + " " + std::to_string((int)rd->Handling());
     for (size_t i = n0; i < reports.size(); i++) { o += " ; "; o += msgStr(reports[i].m); caseReported = true; C.count("messages_reported"); }
+    if (!rd->Handling()) idlePoints.push_back(seen.size());
     C.outs(o); readerOracle(); return;
   }
   C.out("bad-op");
@@ -312,7 +336,16 @@ static Bytes goodFrame(Rng &R, int n = -1) {
   return refFrame(refBody(R.chance(1, 5) ? 0x94 : 0x93, h.prio, h.pgn, h.dst, h.src, (uint32_t)h.t, randData(R, n)));
 }
 // kind: 0 bad checksum, 1 length byte off, 2 embedded data length off (length byte and checksum consistent), 3 overlong,
-//       4 truncated, 5 missing escape, 6 tiny, 7 unknown type, 8 start sequence inside
+//       4 truncated, 5 missing escape, 6 tiny, 7 unknown type, 8 start sequence inside,
+//       9 self-consistent (length byte, data length, checksum) but with more payload than a tN2kMsg holds,
+//       10 overlong: start sequence, J filler bytes summing to 0 (J around 2^8, the buffer size, 2^9), then a well-formed body + end
+// <10><02> + J filler bytes (never 0x10; mode 0: zeros, 1: one value, 2: random with the last byte making the sum 0 mod 256)
+// + body and checksum of a well-formed frame + <10><03>: not a frame (its length byte does not fit), nothing may be reported
+static Bytes overlongWithTail(Rng &R, int J, int mode) {
+  Bytes o = {0x10, 0x02}; unsigned sum = 0; unsigned char v = nonEsc(R);
+  for (int i = 0; i < J; i++) { unsigned char b = mode == 0 ? 0 : mode == 1 ? v : nonEsc(R); if (mode == 2 && i == J - 1) { b = (unsigned char)((256 - sum % 256) % 256); if (b == 0x10) { b = 0x11; } } o.push_back(b); sum += b; }
+  Bytes g = goodFrame(R, (int)R.range(1, 20)); o.insert(o.end(), g.begin() + 2, g.end()); return o;
+}
 static Bytes badFrame(Rng &R, int kind) {
   Hdr h = randHdr(R); int type = R.chance(1, 5) ? 0x94 : 0x93; int hl = type == 0x93 ? 11 : 6;
   switch (kind) {
@@ -324,6 +357,8 @@ static Bytes badFrame(Rng &R, int kind) {
     case 4: { Bytes f = goodFrame(R); f.resize(R.below(f.size())); return f; }
     case 5: { Bytes f = refFrame(refBody(type, h.prio, h.pgn, h.dst, h.src, (uint32_t)h.t, Bytes((int)R.range(1, 20), 0x10))); for (size_t i = 4; i + 3 < f.size(); i++) if (f[i] == 0x10 && f[i + 1] == 0x10) { f.erase(f.begin() + i); break; } return f; }
     case 6: { Bytes b; int n = (int)R.below(4); int t = R.chance(1, 2) ? 0x93 : 0x94; if (n > 0) b.push_back(t); if (n > 1) b.push_back(n - 2 + (R.chance(1, 4) ? 1 : 0)); if (n > 2) b.push_back((unsigned char)R.below(256)); return refFrame(b); }
+    case 9: { int n = (int)R.range(224, 255 - hl); return refFrame(refBody(type, h.prio, h.pgn, h.dst, h.src, (uint32_t)h.t, randData(R, n))); }
+    case 10: return overlongWithTail(R, (int)R.pick(std::vector<int>{254, 255, 256, 257, 258, 298, 299, 300, 301, 302, 510, 511, 512, 513}), (int)R.below(3));
     case 7: return refFrame(refBody((int)R.below(256), h.prio, h.pgn, h.dst, h.src, (uint32_t)h.t, randData(R, (int)R.range(0, 20))));
     default: { Bytes f = goodFrame(R); Bytes g = goodFrame(R); f.resize(R.below(f.size())); f.insert(f.end(), g.begin(), g.end()); return f; }
   }
@@ -332,13 +367,14 @@ static Bytes randomStream(Rng &R, int pieces) {
   Bytes s;
   for (int i = 0; i < pieces; i++) {
     unsigned r = (unsigned)R.below(100); Bytes p;
-    if (r < 45) p = goodFrame(R); else if (r < 65) p = garbage(R, (int)R.range(1, 12)); else p = badFrame(R, (int)R.below(9));
+    if (r < 45) p = goodFrame(R); else if (r < 65) p = garbage(R, (int)R.range(1, 12)); else p = badFrame(R, (int)R.below(11));
     s.insert(s.end(), p.begin(), p.end());
   }
   return s;
 }
 static void rnew(Rng &R) { char b[64]; snprintf(b, sizeof b, "rnew %d %d", R.chance(1, 2) ? 65 : (int)R.below(256), (int)R.pick(std::vector<int>{0, 0x10, 0x93, 0xA5, 0xFF, 9})); exec(b); if (R.chance(1, 3)) { snprintf(b, sizeof b, "now %lu", (unsigned long)(R.next() & 0xFFFFFFFFul)); exec(b); } }
-static void push(const Bytes &s, size_t a, size_t b) { if (b > a) exec("push " + hex(s.data() + a, b - a)); }
+// op lines stay well below the 8 KiB line buffer of the replay reader
+static void push(const Bytes &s, size_t a, size_t b) { for (; a < b; a += 1500) { size_t e = a + 1500 < b ? a + 1500 : b; exec("push " + hex(s.data() + a, e - a)); } }
 // delivery of a stream: mode 0 all at once + parse; 1 split at k; 2 byte at a time with get; 3 random chunks with get until 0;
 // 4 readOut=false with the application dropping the bytes the reader leaves
 static void deliver(Rng &R, const Bytes &s, int mode, size_t k = 0) {
@@ -362,9 +398,49 @@ static void readerSection(Rng &R) {
     push(ok, 0, ok.size()); exec("parse");
     C.sample("reader targeted: consistent length byte + checksum with embedded data length 9/4/0/1 for 2/20/20/244 data bytes");
   }
+  // boundary sweep, both frame types: every payload size 0..(largest a length byte can express)+3 with length byte and
+  // checksum matching the frame and the embedded data length exact / one less / one more; each followed by a good frame;
+  // alternately read with GetMessageFromStream (canaries in the message object) and ParseMessages
+  { int alt = 0;
+    for (int type : {0x93, 0x94}) { int hl = type == 0x93 ? 11 : 6;
+      for (int n = 0; n <= 255 - hl + 3; n++) for (int d = -1; d <= 1; d++) {
+        if (n + d < 0) continue; if (!C.thorough && d != 0 && n % 4 != 3 && (n < 215 || n > 232)) continue;
+        Hdr h = randHdr(R); Bytes f = refFrame(refBody(type, h.prio, h.pgn, h.dst, h.src, (uint32_t)h.t, randData(R, n), (n + hl) & 255, (n + d) & 255));
+        Bytes ok = goodFrame(R, (int)R.range(1, 10)); f.insert(f.end(), ok.begin(), ok.end());
+        rnew(R); push(f, 0, f.size());
+        if (alt++ & 1) exec("parse"); else do exec("get 1"); while (lastGetResult);
+      } }
+    C.sample("reader boundary sweep: types 93 and 94, payload sizes 0..252, embedded data length exact/-1/+1, read by get (canaries) and parse");
+  }
+  // overlong frames with a well-formed tail: filler lengths around 2^8, the buffer size and 2^9, three kinds of filler
+  for (int J : {253, 254, 255, 256, 257, 258, 259, 297, 298, 299, 300, 301, 302, 303, 509, 510, 511, 512, 513, 514, 768}) for (int mode = 0; mode < 3; mode++) {
+    Bytes f = overlongWithTail(R, J, mode); Bytes ok = goodFrame(R, (int)R.range(1, 10)); f.insert(f.end(), ok.begin(), ok.end());
+    deliver(R, f, (J + mode) % 2 ? 0 : 3, 0);
+  }
+  // stray escape bytes directly in front of a frame, with the reader idle before them: fresh, after a frame, after garbage
+  for (int k = 1; k <= 4; k++) for (int where = 0; where < 3; where++) {
+    Bytes pre; if (where == 1) pre = goodFrame(R, (int)R.range(1, 10)); else if (where == 2) { pre = garbage(R, (int)R.range(1, 8)); pre.push_back(0x55); }
+    Bytes f(k, 0x10); Bytes ok = goodFrame(R, (int)R.range(1, 10)); f.insert(f.end(), ok.begin(), ok.end());
+    rnew(R); if (!pre.empty()) { push(pre, 0, pre.size()); exec("parse"); } push(f, 0, f.size()); exec(k % 2 ? "parse" : "get 1");
+  }
+  C.sample("reader: overlong frames (filler 253..259, 297..303, 509..514, 768 bytes) with a well-formed tail; 1..4 stray <10> in front of a frame with the reader idle");
+  // checksum sweep: frames of both types whose length byte is off by -3..+2, whose embedded data length is off by one, or
+  // which are well formed, each with EVERY value 0..255 as checksum byte (a weakened length or checksum test accepts one of
+  // them whatever arithmetic it uses); one reader per shape, a good frame at the end
+  for (int type : {0x93, 0x94}) for (int rep = 0; rep < (C.thorough ? 6 : 2); rep++) {
+    const int shapes[8][2] = {{-3, 0}, {-2, 0}, {-1, 0}, {1, 0}, {2, 0}, {0, -1}, {0, 1}, {0, 0}};
+    for (auto &sh : shapes) {
+      int hl = type == 0x93 ? 11 : 6; int n = (int)R.range(2, 12); Hdr h = randHdr(R);
+      Bytes body = refBody(type, h.prio, h.pgn, h.dst, h.src, (uint32_t)h.t, randData(R, n), n + hl + sh[0], n + sh[1]);
+      Bytes st; for (int cd = 0; cd < 256; cd++) { Bytes f = refFrame(body, cd); st.insert(st.end(), f.begin(), f.end()); }
+      Bytes ok = goodFrame(R, (int)R.range(1, 10)); st.insert(st.end(), ok.begin(), ok.end());
+      rnew(R); push(st, 0, st.size()); exec("parse");
+    }
+  }
+  C.sample("reader checksum sweep: length byte off by -3..+2 / data length off by one / well formed, every checksum byte 0..255, types 93 and 94");
   // exhaustive split: every byte boundary of a few composite streams, and byte-at-a-time
   for (int rep = 0; rep < (C.thorough ? 12 : 3); rep++) {
-    Bytes s; Bytes a = goodFrame(R, (int)R.range(1, 12)), g = garbage(R, (int)R.range(1, 6)), b = badFrame(R, (int)R.below(9)), c = goodFrame(R, (int)R.range(1, 12));
+    Bytes s; Bytes a = goodFrame(R, (int)R.range(1, 12)), g = garbage(R, (int)R.range(1, 6)), b = badFrame(R, (int)R.below(11)), c = goodFrame(R, (int)R.range(1, 12));
     if (b.size() > 80) b.resize(80);
     for (const Bytes *p : {&a, &g, &b, &c, &a}) s.insert(s.end(), p->begin(), p->end());
     for (size_t k = 0; k <= s.size(); k++) deliver(R, s, 1, k);
@@ -378,7 +454,7 @@ static void readerSection(Rng &R) {
     exec("parse");
   }
   // every kind of bad frame followed by a good one, each in a fresh reader and after another frame
-  for (int rep = 0; rep < (C.thorough ? 40 : 6); rep++) for (int kind = 0; kind < 9; kind++) {
+  for (int rep = 0; rep < (C.thorough ? 40 : 6); rep++) for (int kind = 0; kind < 11; kind++) {
     Bytes s = badFrame(R, kind); Bytes g = goodFrame(R), g2 = goodFrame(R); s.insert(s.end(), g.begin(), g.end()); s.insert(s.end(), g2.begin(), g2.end());
     deliver(R, s, (int)R.below(5), R.below(s.size() + 1));
   }
